@@ -1,12 +1,14 @@
 # integrated from builder group rpcDisc
 CHECKS['C27'] = {'pkg': 'discovery',
- 'tests': [{'name': 'TestC27', 'quick': 45, 'thorough': 12000, 'timeout_q': 1500, 'shrinktime': '60s'}],
+ 'tests': [{'name': 'TestC27', 'quick': 45, 'thorough': 12000, 'timeout_q': 1500, 'shrinktime': '60s'},
+           {'name': 'TestC27Churn', 'quick': 150, 'thorough': 24000, 'shrinktime': '30s'}],
  'level': 'exploration',
  'technique': 'property-based testing (rapid) over histories: generated scripts of register/deregister and subscribe/read-slowly/stop-reading/unsubscribe '
-              "against the real helium on the real etcd store, decided against the script's own bookkeeping",
+              "against the real helium on the real etcd store, decided against the script's own bookkeeping; TestC27Churn: the real helium on a stub "
+              "registration stream, rounds of subscribers leaving while others join, each followed by a change every live subscriber must receive",
  'rule': 'rapid-generated scripts (1-4 addresses, some registered before helium starts; 1-4 subscribers fast/slow(5-250 ms)/stopping to read, raw Unsubscribe '
          'or Calcium-style context cancel; 4-12 steps with 0-120 ms pauses; late joiners); non-trivial = at least 2 subscribers subscribed at once and at '
-         'least 1 registration change while they were; distinct by hash of the script',
+         'least 1 registration change while they were; TestC27Churn: 4-24 rounds (0-3 leave while 0-3 join), non-trivial = >= 3 rounds with both; distinct by hash of the script',
  'level_text': 'Random search over operation histories with real time: after the churn every live subscriber must get a push within push interval (1 s) + 6 s '
                'slack whose latest content is exactly the registered set with Interval = 2 x push interval; every Unsubscribe must return and the channel be '
                'closed within a 10 s watchdog. Real-time bounds are retried once before they count. Interleavings are sampled (generated pauses), not '
